@@ -400,7 +400,8 @@ def run_property(pid, tier, seed):
         return 2
 
     # coverage-guided shards (thorough tier): libFuzzer mutates the byte stream Hypothesis decodes into a case
-    fz = plan.get("fuzz", DEFAULT_FUZZ if tier == "thorough" and getattr(prop, "strategy", None) else None)
+    has_strategy = getattr(prop, "strategy", None) is not None and prop.strategy(tier) is not None
+    fz = plan.get("fuzz", DEFAULT_FUZZ if tier == "thorough" and has_strategy else None)
     fuzz_note = None
     if fz and scale != 1:
         fz = dict(fz, wall=max(10, fz["wall"] * scale))
